@@ -64,28 +64,36 @@ func c17E2(tier string, o *E2Out) {
 	for _, seq := range seqs {
 		for _, vm := range []string{"set", "unset", "dotenv"} {
 			for _, dis := range []bool{false, true} {
-				idx++
-				if !o.mine(idx) {
-					continue
+				for _, val := range []string{"val-a", "pa$$wd", "end$", "${VHU}x"} {
+					if vm == "unset" && val != "val-a" {
+						continue
+					}
+					if vm == "dotenv" && val != "val-a" && val != "pa$$wd" {
+						continue // godotenv has its own expansion rules for $: only plain and $$ values
+					}
+					idx++
+					if !o.mine(idx) {
+						continue
+					}
+					if o.expired() {
+						o.Exhaustive = false
+						return
+					}
+					c17One(o, dir, seq, vm, dis, val)
 				}
-				if o.expired() {
-					o.Exhaustive = false
-					return
-				}
-				c17One(o, dir, seq, vm, dis)
 			}
 		}
 	}
 }
 
-func c17One(o *E2Out, dir string, seq []int, vm string, dis bool) {
+func c17One(o *E2Out, dir string, seq []int, vm string, dis bool, value string) {
 	var toks, want []string
 	val, set := "", false
 	switch vm {
 	case "set":
-		val, set = "val-a", true
+		val, set = value, true
 	case "dotenv":
-		val, set = "from-dotenv", true
+		val, set = value, true
 	}
 	nontrivial := false
 	for _, i := range seq {
@@ -101,7 +109,7 @@ func c17One(o *E2Out, dir string, seq []int, vm string, dis bool) {
 	}
 	text := strings.Join(toks, ",")
 	expect := strings.Join(want, ",")
-	in := c17Input{Tokens: toks, VarMode: vm, Disable: dis}
+	in := c17Input{Tokens: toks, VarMode: vm + ":" + value, Disable: dis}
 	var b strings.Builder
 	b.WriteString("version: \"0.5\"\n")
 	if dis {
@@ -111,13 +119,13 @@ func c17One(o *E2Out, dir string, seq []int, vm string, dis bool) {
 	fn := filepath.Join(dir, "pc.yaml")
 	os.WriteFile(fn, []byte(b.String()), 0o644)
 	envFile := filepath.Join(dir, "dotenv")
-	os.WriteFile(envFile, []byte("VHA=from-dotenv\n"), 0o644)
+	os.WriteFile(envFile, []byte("VHA='"+value+"'\n"), 0o644)
 	os.Unsetenv("VHA")
 	os.Unsetenv("VHU")
 	opts := &loader.LoaderOptions{FileNames: []string{fn}, IsInternalLoader: true}
 	switch vm {
 	case "set":
-		os.Setenv("VHA", "val-a")
+		os.Setenv("VHA", value)
 		opts.DisableDotenv(true)
 	case "unset":
 		opts.DisableDotenv(true)
@@ -147,6 +155,9 @@ func c17One(o *E2Out, dir string, seq []int, vm string, dis bool) {
 		if got != expect {
 			in.Field = field
 			sig := "expansion:" + class()
+			if strings.Contains(value, "$") {
+				sig += ":value-with-dollar"
+			}
 			if dis {
 				sig = "expansion-disabled:" + class()
 			}
